@@ -318,6 +318,8 @@ func c06UnpackStable(pf erpc.ProtoFunc, b []byte, chunk, cseed int, budget uint6
 	return
 }
 
+var c06MaxLimit int
+
 func c06Run(line string, out *hx.Out) (string, bool) {
 	kind, f := hx.Fields(line)
 	limit, _ := strconv.Atoi(f["limit"])
@@ -327,7 +329,14 @@ func c06Run(line string, out *hx.Out) (string, bool) {
 	socket.SetMessageSizeLimit(uint32(limit))
 	defer socket.SetMessageSizeLimit(0)
 	// generous slack: message objects, Args, status, error values, the chunk reader itself
-	budget := uint64(limit)*3 + uint64(len(b))*8 + 64<<10
+	// The library's byte-buffer pool hands out buffers of a size calibrated on EARLIER traffic of the
+	// process, and this process has run cases under larger limits: the budget is taken from the
+	// largest limit seen so far (an announced-size allocation - 2^24 and more in the generator - is far
+	// above it in any case).
+	if limit > c06MaxLimit {
+		c06MaxLimit = limit
+	}
+	budget := uint64(c06MaxLimit)*3 + uint64(len(b))*8 + 64<<10
 	switch kind {
 	case "c06unpack", "c06primed":
 		if kind == "c06primed" {
